@@ -260,6 +260,7 @@ def gen_programs(seed, n):
             for d in f.get("decos", []):
                 if d["t"] in ("require", "ensure", "snapshot"):
                     d["enabled"] = True
+                    d.pop("made", None)  # contracts from the contract factory carry no `enabled` argument
         for c in p.get("classes", []):
             for i in c.get("invs", []):
                 i["enabled"] = True
